@@ -252,6 +252,47 @@ let exec (s : t) (verbose : bool) (f : string array) (obs : string option) : str
      | (LFailed, _) -> "err failed"
      | (_, h) -> lock_close h; "ok")
   | "openrace" -> "done"
+  | "concsched" ->
+    let parse_prog (spec : string) : call list =
+      if spec = "-" || spec = "" then [] else
+      List.map (fun o -> match String.split_on_char ',' o with
+        | ["p"; k; v] -> CPut (tok_bytes k, tok_bytes v)
+        | ["d"; k] -> CDel (tok_bytes k)
+        | ["g"; k] -> CGet (tok_bytes k)
+        | _ -> failwith "bad call") (String.split_on_char ';' spec) in
+    let threads = List.map (fun p -> TIdle (parse_prog p)) (String.split_on_char '/' f.(2)) in
+    let sched = List.map (fun x -> nat_of_int (int_of_string x)) (String.split_on_char ',' f.(3)) in
+    let st = crun { c_db = get_db s; c_threads = threads; c_hist = []; c_lins = [] } sched in
+    s.db <- Some st.c_db;
+    let rec int_of_nat = function O -> 0 | S n -> 1 + int_of_nat n in
+    let err_s = function None -> "ok" | Some e -> "err:" ^ eerr_name e in
+    String.concat ";" (List.map (function
+      | DPut (tid, _, _, e, _) -> Printf.sprintf "P%d:%s" (int_of_nat tid) (err_s e)
+      | DDel (tid, _, e, _) -> Printf.sprintf "D%d:%s" (int_of_nat tid) (err_s e)
+      | DGet (tid, _, r, _) -> Printf.sprintf "G%d:%s" (int_of_nat tid)
+                                 (match r with Inl v -> "ok:" ^ obs_bytes v | Inr e -> "err:" ^ eerr_name e)) st.c_hist)
+  | "concpark" ->
+    let parse1 (o : string) = match String.split_on_char ',' o with
+      | ["p"; k; v] -> `P (tok_bytes k, tok_bytes v) | ["d"; k] -> `D (tok_bytes k) | ["g"; k] -> `G (tok_bytes k)
+      | _ -> failwith "bad call" in
+    let a = parse1 f.(3) and b = parse1 f.(4) in
+    let err_s = function None -> "ok" | Some e -> "err:" ^ eerr_name e in
+    let run c = match c with
+      | `P (k, v) -> let ((d, e), _) = db_put (get_db s) k v in s.db <- Some d; err_s e
+      | `D k -> let ((d, e), _) = db_delete (get_db s) k in s.db <- Some d; err_s e
+      | `G k -> let ((d, r), _) = db_get (get_db s) k in s.db <- Some d;
+                (match r with Inl v -> "ok:" ^ obs_bytes v | Inr e -> "err:" ^ eerr_name e) in
+    let nonempty k = k <> [] in
+    let present k = idx_get (get_db s).d_index k <> None in
+    let reached = match f.(2), a with
+      | "put.appended", `P (k, _) -> nonempty k
+      | ("delete.checked" | "delete.appended"), `D k -> nonempty k && present k
+      | _ -> false in
+    if not reached then (let ra = run a in let rb = run b in "nopark " ^ ra ^ " " ^ rb)
+    else (match b with
+      | `G _ -> let rb = run b in let ra = run a in "parked " ^ ra ^ " " ^ rb
+      | _ -> let ra = run a in let rb = run b in "parked " ^ ra ^ " " ^ rb)
+  | "concstress" -> "done"
   | "probeclose" -> ""
   | "hostile" -> ""
   | "close" ->
